@@ -43,6 +43,7 @@ local JavaCode gj0ClosInit(Foam lhs, Foam rhs);
 local JavaCode gj0Set(Foam lhs, Foam rhs);
 local JavaCode gj0Return(Foam foam);
 local JavaCode gj0Seq(Foam seq);
+local Bool     gj0BCallIsOperator(Foam foam);
 local JavaCode gj0Par(Foam seq);
 local JavaCode gj0Loc(Foam seq);
 local JavaCode gj0LocSet(Foam ref, Foam rhs);
@@ -2267,6 +2268,15 @@ gj0SeqBCall(GjSeqStore seqs, Foam foam)
 {
 	JavaCode jc;
 	if (foam->foamBCall.op != FOAM_BVal_Halt) {
+		if (gj0BCallIsOperator(foam)) {
+			/* An operator expression is not a Java statement.
+			 * Its value is dropped: keep the operands' effects. */
+			int i;
+			for (i = 0; i < foamBCallArgc(foam); i++)
+				if (foamHasSideEffect(foam->foamBCall.argv[i]))
+					gj0SeqGen(seqs, foam->foamBCall.argv[i]);
+			return;
+		}
 		gj0SeqGenDefault(seqs, foam);
 		return;
 	}
@@ -4371,6 +4381,14 @@ local JavaCode gj0BCallNotImpl (Foam foam);
 
 struct gjBVal_info gjBValInfoTable[];
 struct gjBVal_info gjBValNotImpl;
+
+local Bool
+gj0BCallIsOperator(Foam foam)
+{
+	GJBValInfo inf = gj0BCallBValInfo(foam->foamBCall.op);
+	return inf->method == GJ_Op || inf->method == GJ_OpMod
+		|| inf->method == GJ_Cast;
+}
 
 local JavaCode
 gj0BCall(Foam foam) 
